@@ -149,6 +149,17 @@ CLAIMED = {
             "Assumed: numpy / scipy return eigenvalues in ascending order and satisfy the defining equations of the decompositions. NOT "
             "decided: Corr.GEVP's time-slice plumbing (t0, ts, sort modes, None timeslices), _sort_vectors, Eigenvalue / projected / prune, "
             "the Obs-valued branch, exact-exponential spectra, matrix_pencil_method (numerical statements outside the reach of contracts)."),
+    "C17": ("symbolic execution of the configuration-selection statements of read_rwms (statement slice, filter / map summaries, ghost induction) and of check_idl + z3; native execution of the same slice",
+            "Proof for read_rwms (one replica, one factor; lengths, configuration numbers, r_start / r_stop / r_step symbolic): the stored "
+            "configuration numbers are divided by the measurement spacing (and shifted so that the first is 1 after thermalisation), for "
+            "equally spaced files they become first + position (induction), r_start / r_stop are located by NUMBER (exception iff absent), "
+            "and the factors kept are exactly every r_step-th one from the start to the stop position (count and elements). check_idl "
+            "returns a string on every path (the UnboundLocalError for a complete list was found by this obligation and fixed).",
+            "DESIGN.md section 6 C17",
+            "NOT decided: file discovery and ordering (_find_files, sort_names: regular expressions), the binary decoding of the factors "
+            "(record loop: C18), openQCD 2.0 arrays, gradient-flow / ms5_xsf / sfcf / hadrons readers, several replicas and factors, that "
+            "range(new[start], new[stop] + 1, r_step) has as many elements as factors were kept (needs a div/mod bound the lemma library "
+            "does not provide)."),
     "C18": ("symbolic execution of the record loops as statement slices with the file length universally quantified; loop invariants over (position, records accepted)",
             "Proof for two record loops: _extract_flowed_energy_density and the openQCD branch of _read_flow_obs, with the byte length L of the "
             "file a free symbol (every truncation offset at once): on normal exit every accepted record lies completely before the cut "
@@ -180,6 +191,22 @@ CLAIMED = {
             "derivative (DLMF 10.29); autograd's defvjp mechanism; the re-exported autograd.scipy.special functions are not examined (not decided)."),
 }
 
-NOT_APPLICABLE = {("C%02d" % i): NOT_BUILT for i in range(1, 21)}
+REASONS = {
+    "C07": "The property is about the estimator least_squares returns: it is computed by iterative scipy / iminuit minimisers and by "
+           "autograd Hessians inside one 500-line function whose result is only defined through those numerical procedures. A contract "
+           "within reach of the verifier could state plumbing (degrees of freedom, ordering of keys) but not that the returned parameters "
+           "equal the closed-form GLS solution - that needs convergence of the minimiser, which no pre/postcondition on the pyerrors code "
+           "expresses or decides. No contract was built; nothing is claimed.",
+    "C08": "Stationarity of the returned parameters and the implicit-function sensitivities depend on the convergence of the numerical "
+           "minimiser / ODR and on autograd's exact Hessians; the part pyerrors itself writes is the same derived_observable(man_grad) "
+           "hand-over that C09 verifies for roots.py. For fits.py it is embedded in code that cannot be symbolically executed (scipy.odr, "
+           "minimiser objects); no contract was built; nothing is claimed.",
+    "C11": "The json writer and reader build and consume lists of rows of symbolic length (a list of lists per replica, column_stack / "
+           "tolist / nested comprehensions over 2-D arrays); the verifier's data model has sequences of scalars, 2-D float arrays and "
+           "filter / map loop summaries, but no sequence of rows, so neither _gen_data_d_from_list nor _gen_obsd_from_datad / "
+           "get_Obs_from_dict can be executed symbolically. The algebraic round-trip lemma alone (offsets cancel because the fluctuations "
+           "of a replica sum to zero) would be a proof about a model, not about the code, and is therefore not claimed.",
+}
+NOT_APPLICABLE = {("C%02d" % i): REASONS.get("C%02d" % i, NOT_BUILT) for i in range(1, 21)}
 for _k in CLAIMED:
     NOT_APPLICABLE.pop(_k, None)
